@@ -172,7 +172,7 @@ def Scene.processChunk (sc : Scene α) (n : Nat) : Except SpatialFault (TrackOut
   | .ok r =>
     let out := r.out.map (fun f =>
       let f := f.scale (1.0 : α)
-      (⟨clamp f.left (-(1.0 : α)) (1.0 : α), clamp f.right (-(1.0 : α)) (1.0 : α)⟩ : Frame α))
+      (⟨clamp (nanToZero f.left) (-(1.0 : α)) (1.0 : α), clamp (nanToZero f.right) (-(1.0 : α)) (1.0 : α)⟩ : Frame α))
     .ok ⟨r.scene, out, r.log⟩
 
 /-- mirrors: Renderer::process — chunks of `internal_buffer_size` frames -/
